@@ -235,6 +235,7 @@ def run_property(prop, tier, seed, jobs, replay=None):
 def main(argv=None):
     ap = argparse.ArgumentParser()
     ap.add_argument('prop')
+    ap.add_argument('rest', nargs='*')
     ap.add_argument('--tier', default=os.environ.get('VERIF_TIER', 'quick'),
                     choices=['quick', 'thorough'])
     ap.add_argument('--seed', type=int, default=int(os.environ.get('VERIF_SEED', '0') or 0))
@@ -243,7 +244,7 @@ def main(argv=None):
     args = ap.parse_args(argv)
     if args.prop == 'selftest':
         from . import selftest
-        return selftest.main()
+        return selftest.main(args.rest)
     props = available() if args.prop == 'all' else [args.prop.upper()]
     rc = 0
     for p in props:
